@@ -47,4 +47,14 @@ SEEDS = [
  {"name": "c18-ext4-extent-children-counted", "properties": ["C18"], "expect": "C18-e|",
   "edits": [e("filesystem/ext4/extent.go", "			if i > 0 {\n				internalNode.children[i-1].count", "			if i > 0 && ptr.fileBlock != 0 {\n				internalNode.children[i-1].count"),
             e("filesystem/ext4/extent.go", "			internalNode.children = append(internalNode.children, ptr)\n", "			if ptr.diskBlock != 0 {\n				internalNode.children = append(internalNode.children, ptr)\n			}\n")]},
+ # C18-g: device-derived slice bounds
+ {"name": "c18-squashfs-metadata-offset-unchecked", "properties": ["C18"], "expect": "C18-g|",
+  "edits": [e("filesystem/squashfs/metadatablock.go", "	if int(byteOffset) > len(m) {", "	if int(byteOffset) > len(m)+int(byteOffset) {")]},
+ {"name": "c18-ext4-dirent-name-length-unchecked", "properties": ["C18"], "expect": "C18-g|",
+  "edits": [e("filesystem/ext4/directoryentry.go", "	if 0x8+nameLength > len(b) {", "	if 0x8+nameLength > len(b)+nameLength {")]},
+ {"name": "c18-fat32-empty-fat-accepted", "properties": ["C18"], "expect": "C18-g|",
+  "edits": [e("filesystem/fat32/fat32.go", "	if fatSize < 8 {", "	if fatSize < 8 && sectorsPerFat != 0 {")]},
+ # behaviour-preserving: the same test written with the operands swapped must stay silent
+ {"name": "c18-ext4-dirent-name-length-check-rewritten", "properties": ["C18"], "silent": True, "expect": "",
+  "edits": [e("filesystem/ext4/directoryentry.go", "	if 0x8+nameLength > len(b) {", "	if len(b) < nameLength+0x8 {")]},
 ]
